@@ -22,9 +22,14 @@ package kafka
 //@   ensures data.messages[old(i)] != nil
 //@   ghost gtl int = 0
 //@   ensures !p.config.UseTopicField || gtl == 0 ==> data.messages[old(i)].Topic == p.config.DefaultTopic
+//@   ghost gn int = 0
+//@   ensures sameblock(data.messages[old(i)].Value, outBuf) && off(data.messages[old(i)].Value) == off(outBuf) + old(len(outBuf)) && len(data.messages[old(i)].Value) == len(outBuf) - old(len(outBuf))
+//@   ensures len(outBuf) >= old(len(outBuf))
+//@   ensures forall k :: 0 <= k && k < old(i) ==> data.messages[k] == old(data.messages[k])
 //@   callee Encode(buf) (r, n)
+//@     requires buf == outBuf
 //@     pure
-//@     ensures 0 <= n && n <= len(r)
+//@     ensures 0 <= n && n <= len(r) && n == len(buf)
 //@   callee Dig(path) (n)
 //@     pure
 //@   callee AsString() (s)
@@ -52,4 +57,35 @@ package kafka
 //@   callee Errorf(f, a)
 //@     pure
 //@   callee Inc()
+//@     pure
+
+// Start: the batcher's count limit IS the length of the record slot table (both are
+// batch_size) - what `i < len(data.messages)` in the callback rests on -, the retry loop's
+// notion of "a dead queue exists" is the router's and its retry count the configured one; the
+// error callback forwards every event of a failed batch to Router.Fail exactly once, in order.
+
+//@ func (*Plugin).Start
+//@   option allow-exit yes
+//@   ghost dq bool = false
+//@   requires typeis(config, "*github.com/ozontech/file.d/plugin/output/kafka.Config")
+//@   callee IsDeadQueueAvailable() (avail)
+//@     pure
+//@     set dq := avail
+//@   callee NewRetriableBatcher(bo, fn, opts, onErr)
+//@     requires bo.BatchSizeCount == p.config.BatchSize_
+//@     requires opts.IsDeadQueueAvailable == dq
+//@     requires opts.AttemptNum == p.config.Retry
+
+//@ func (*Plugin).Start$1
+//@   option allow-exit yes
+//@   ghost nfail int = 0
+//@   ensures nfail == len(events)
+//@   loop 1 invariant nfail == rangeindex + 1 && rangeindex < len(events)
+//@   callee Fail(e)
+//@     requires e == events[rangeindex] && nfail == rangeindex
+//@     pure
+//@     set nfail := nfail + 1
+//@   callee IsDeadQueueAvailable() (r)
+//@     pure
+//@   callee Log(l, m, f)
 //@     pure
